@@ -121,7 +121,8 @@ class World:
         p = lw.Circuit(3); p.bs(0, reflectivity=self.par); p.bs(1); p.herald(0, 2, 1)  # herald in != out
         d = lw.Circuit(3); d.mode_swaps({0: 1, 1: 0}); d.herald(0, 2)     # a pure permutation: exact expected mappings
         e = lw.Unitary(u1.copy()); e.herald(1, 2, 0)     # as b on the input side, the herald leaves on another mode
-        self.circ = {"a": a, "b": b, "c": c, "p": p, "d": d, "e": e}
+        f = lw.Unitary(u1.copy()); f.herald(2, 2)        # two herald photons: threshold detectors cannot confirm this herald
+        self.circ = {"a": a, "b": b, "c": c, "p": p, "d": d, "e": e, "f": f}
         self.ps = UNSET        # the post-selection object the USER last handed over (and may keep editing)
         # "bad": right length, invalid occupation - the assignment must be refused and change nothing
         self.inputs = {"10": lw.State([1, 0]), "01": lw.State([0, 1]), "11": lw.State([1, 1]), "bad": lw.State([True, False])}
@@ -154,7 +155,7 @@ DET_EFF = 0.75      # imperfect detection: sampling then also caches states outs
 
 # ---------------- Sampler
 def sampler_alphabet(env, tier):
-    a = [("circuit", k) for k in "abcpe"] + [("param", v) for v in (env.R[1], env.L[1])] \
+    a = [("circuit", k) for k in "abcpef"] + [("param", v) for v in (env.R[1], env.L[1])] \
         + [("input", k) for k in ("10", "01", "bad")] + [("source", k) for k in ("ideal", "dim", "ind")] \
         + [("src_inplace", "brightness", 1.0), ("src_inplace", "brightness", env.R2),
            ("backend", "permanent"), ("backend", "slos"), ("read",), ("draw",),
